@@ -488,8 +488,17 @@ def failures(res, prop=None):
                 out.append(ob)
         else:
             # unlabelled (safety, frame, loop) obligations belong to the
-            # harness's safety properties
-            if prop in res.spec.get("safety_props", res.spec["props"][:1]):
+            # harness's safety properties; memory leaks additionally to C05 and
+            # memory-safety / undefined-behaviour checks to C14 wherever the
+            # harness serves those properties
+            owners = set(res.spec.get("safety_props", res.spec["props"][:1]))
+            if ob["cls"] == "memory-leak" and "C05" in res.spec["props"]:
+                owners.add("C05")
+            if ob["cls"] in ("pointer_dereference", "pointer_arithmetic", "pointer_primitives", "array_bounds",
+                             "bounds", "overflow", "undefined-shift", "division-by-zero", "precondition_instance") \
+                    and "C14" in res.spec["props"]:
+                owners.add("C14")
+            if prop in owners:
                 out.append(ob)
     return out
 
